@@ -50,3 +50,82 @@ def run_queries(cs, queries):
     got = common.drv_run(lines)[1:]
     bad = [(q, exp, g, lab) for (q, exp, lab), g in zip(queries, got) if exp != g]
     return bad, len(queries)
+
+
+class _Lite:
+    """a configuration loaded by the real front end, without building or running anything"""
+
+    def __init__(self, text, cfg, ir):
+        self.text, self.cfg, self.ir = text, cfg, ir
+
+
+def op_tree_sweep(c, n, seed_base=700, profiles=('layout', 'layout-pad', 'layout-bits'), label='H-layout op-tree sweep'):
+    """operation trees (alignment statements and the *static* start bit of every bit-field write) and implicit
+    structures of `n` generated configurations: real `_OpBuilder` output vs Lean `buildRoot`.  Cheap (no C is
+    compiled), so it covers many more layouts than the runs of the compiled tracer."""
+    import random
+    from harness import gencfg
+    ncmp, bad_first, nbad, ncfg = 0, None, 0, 0
+    bad_scored = c.__dict__.setdefault('bad_layout_scored', [])
+    for i in range(n):
+        rnd = random.Random(c.seed * 100000 + seed_base + i)
+        text = gencfg.gen_config(rnd, profile=profiles[i % len(profiles)])[0]
+        try:
+            cfg = common.load_cfg(text)
+        except Exception:
+            continue
+        ir = irx.cfg_ir(cfg)
+        cs = _Lite(text, cfg, ir)
+        tt = cfg.trace.type
+        real = irx.real_ds_ops(cfg)
+        q = []
+        for d in ir['dsts']:
+            dn = d['name']
+            dst = [x for x in tt.data_stream_types if x.name == dn][0]
+            for root, sft in (('ph', tt._pkt_header_ft), ('pc', dst._pkt_ctx_ft), ('h', dst._er_header_ft)):
+                q.append(({'op': 'struct', 'dst': dn, 'root': root}, irx.show_struct_real(sft, root), 'implicit-struct'))
+            for root in ('ph', 'pc', 'h', 'cc'):
+                r = real[dn][root]
+                q.append(({'op': 'ops', 'dst': dn, 'root': root, 'ert': ''},
+                          irx.show_real_op(r, root) if r is not None else 'none', 'op-tree'))
+            for e in d['erts']:
+                for root in ('sc', 'p'):
+                    r = real[dn]['er'][e['name']][root]
+                    q.append(({'op': 'ops', 'dst': dn, 'root': root, 'ert': e['name']},
+                              irx.show_real_op(r, root) if r is not None else 'none', 'op-tree'))
+        bad, n1 = run_queries(cs, q)
+        ncfg += 1
+        ncmp += n1
+        nbad += len(bad)
+        if bad and bad_first is None:
+            bad_first = (cs, bad[0])
+        if bad:
+            # how harmful the difference looks: a static start bit which is a number on the implementation side and
+            # differs from the model's (a benign difference is `oib=0` against `oib=-` on byte-sized elements)
+            import re
+            score = 0
+            for (_q, exp, got, _lab) in bad:
+                a, b = re.findall(r'oib=(\S+?)[)\]]', exp or ''), re.findall(r'oib=(\S+?)[)\]]', got or '')
+                score += sum(1 for x, y in zip(a, b) if x != y and x not in ('-', '0')) + (5 if len(a) != len(b) else 0)
+            bad_scored.append((score, text))
+    c.coverage.setdefault('correspondence', {})[label] = {'configs': ncfg, 'comparisons': ncmp, 'disagreements': nbad}
+    return bad_first
+
+
+def hunt_layout_failure(c, cs, prop, nhist=30, oracle=None):
+    """configurations whose operation tree differs from the model: their tracers are built and run (then tracers of
+    fresh configurations, until the time budget of `rtcommon.search_impl` is spent) under the property's oracle
+    (default: the C01 oracle — every delivered packet is decoded with the generated metadata).  Reports a violation
+    with the failing history if one is found; returns True in that case."""
+    from checks import rtcommon as rt, c01
+    scored = getattr(c, 'bad_layout_scored', [])
+    if sum(1 for s_, _ in scored if s_ > 0) < 6:
+        # look at many more layouts (cheap: nothing is compiled) for differences that look harmful
+        op_tree_sweep(c, 500, seed_base=20000, label='H-layout op-tree sweep (failing-input search)')
+    scored = sorted(getattr(c, 'bad_layout_scored', []), key=lambda x: -x[0])
+    texts = []
+    for _s, t in scored[:10] + [(0, cs.text)]:
+        if t not in texts:
+            texts.append(t)
+    return rt.search_impl(c, oracle or c01.oracle, nhist=nhist, texts=texts, profiles=('layout-pad', 'layout-bits', 'layout', 'rt', 'rt-pad', 'rt-bits'),
+                          known_classifier=rt.known_by(c, [('F9', rt.f9_territory)]), hist_kwargs={'toggles': False})
